@@ -10,6 +10,7 @@ package main
 
 import (
 	"bytes"
+	"errors"
 	"fmt"
 	"net"
 	"os"
@@ -108,6 +109,7 @@ type conductor struct {
 	closing  bool // Session.Close is held between policyConnPool.Close() and s.cancel() (shold … sfin)
 	heldDeb  *gocql.VerifDebouncer
 	closeRet chan struct{}
+	authFail int32 // the next call of the per-host AuthProvider returns an error
 	lateAdd  int   // pools found registered after policyConnPool.Close() (must stay 0: addHost finds the pool map closed)
 	hostConns int  // open sockets of the host at the drained quiescent point of a degraded scenario
 	violated bool  // a monitor has already seen a definite violation: the remaining waits are short
@@ -456,6 +458,21 @@ func (c *conductor) act(a string) bool {
 			c.waitFor(fmt.Sprintf("socket of failed attempt %d closed", id), func() bool { return c.cliConn(id).IsClosed() })
 		}
 		c.resolved(id, false)
+	case "failA":
+		// a failure BEFORE the first round trip: the dial of attempt id succeeds, the per-host AuthProvider then
+		// returns an error (Conn.init): the socket just dialled must be closed, connect() fails
+		st, _ := c.g.held(id)
+		if st != stDial || c.owner[id] == nil || !c.owner[id].inflight[id] {
+			return false
+		}
+		atomic.StoreInt32(&c.authFail, 1)
+		c.g.release(id, fOK)
+		c.waitFor(fmt.Sprintf("socket of attempt %d (AuthProvider error) closed", id), func() bool {
+			cc := c.cliConn(id)
+			return atomic.LoadInt32(&c.authFail) == 0 && cc != nil && cc.IsClosed()
+		})
+		atomic.StoreInt32(&c.authFail, 0)
+		c.resolved(id, false)
 	case "err":
 		if c.cur == nil {
 			return false
@@ -760,15 +777,20 @@ func runPipeLabelled(label string, cfg pipeCfg, fixed []string, choose chooser, 
 	gc.Timeout = 120 * time.Second // never fires: conducted schedules have no timing
 	gc.ConnectTimeout = 120 * time.Second
 	gc.ConvictionPolicy = noConviction{}
-	if cfg.auth > 0 {
-		gc.Authenticator = verifAuth{}
+	c := &conductor{cfg: cfg, label: label, cl: cl, node: node, g: g, ip: net.ParseIP(ipS), owner: map[int]*mpool{},
+		lastID: 1, stopSampler: make(chan struct{})}
+	// the per-host authenticator factory (ClusterConfig.AuthProvider): fails when the conductor says so
+	gc.AuthProvider = func(*gocql.HostInfo) (gocql.Authenticator, error) {
+		if atomic.CompareAndSwapInt32(&c.authFail, 1, 0) {
+			return nil, errors.New("verif: AuthProvider has no credentials for this host")
+		}
+		return verifAuth{}, nil
 	}
 	s, err := gc.CreateSession()
 	if err != nil {
 		return "", "fatal:" + err.Error(), ""
 	}
-	c := &conductor{cfg: cfg, label: label, cl: cl, node: node, g: g, s: s, ip: net.ParseIP(ipS), owner: map[int]*mpool{},
-		lastID: 1, stopSampler: make(chan struct{})}
+	c.s = s
 	c.host = gocql.VerifHostByIP(s, c.ip)
 	h := gocql.VerifHostPools(s)[ipS]
 	if h == nil || c.host == nil {
@@ -1041,6 +1063,14 @@ func genChooser(r *vh.Rng, cfg pipeCfg) chooser {
 	// one schedule in five holds Session.Close between policyConnPool.Close() and s.cancel() and lets things happen there
 	window := r.Intn(5) == 0
 	winLeft := -1
+	// how an attempt fails: ERROR frame / reset at the step it waits for (a refused dial), or — an attempt still at its
+	// dial, every second time — the dial succeeds and the per-host AuthProvider then returns an error
+	failTok := func(c *conductor, id int) string {
+		if st, _ := c.g.held(id); st == stDial && r.Intn(2) == 0 {
+			return "failA" + strconv.Itoa(id)
+		}
+		return []string{"failE", "failR"}[r.Intn(2)] + strconv.Itoa(id)
+	}
 	inner := func(c *conductor, step int) string { return "" }
 	choose := func(c *conductor, step int) string {
 		if c.closing {
@@ -1059,7 +1089,7 @@ func genChooser(r *vh.Rng, cfg pipeCfg) chooser {
 			case x < 70 && len(fl) > 0:
 				return fmt.Sprintf("ok%d", fl[r.Intn(len(fl))])
 			case x < 80 && len(fl) > 0:
-				return []string{"failE", "failR"}[r.Intn(2)] + strconv.Itoa(fl[r.Intn(len(fl))])
+				return failTok(c, fl[r.Intn(len(fl))])
 			case x < 90 && c.cur != nil:
 				return []string{"pick", "down", "burst"}[r.Intn(3)]
 			}
@@ -1087,7 +1117,7 @@ func genChooser(r *vh.Rng, cfg pipeCfg) chooser {
 		pc := c.poolConnIDs()
 		if shortBurst {
 			if len(fl) > 0 {
-				return []string{"failE", "failR"}[r.Intn(2)] + strconv.Itoa(fl[0])
+				return failTok(c, fl[0])
 			}
 			shortBurst = false
 			if c.willFill(c.cur) {
@@ -1139,7 +1169,7 @@ func genChooser(r *vh.Rng, cfg pipeCfg) chooser {
 			case "failother":
 				for _, o := range fl {
 					if o != target {
-						return []string{"failE", "failR"}[r.Intn(2)] + strconv.Itoa(o)
+						return failTok(c, o)
 					}
 				}
 				return "pick"
@@ -1157,7 +1187,7 @@ func genChooser(r *vh.Rng, cfg pipeCfg) chooser {
 		case x < 58 && len(fl) > 0:
 			return fmt.Sprintf("ok%d", fl[r.Intn(len(fl))])
 		case x < 68 && len(fl) > 0:
-			return []string{"failE", "failR"}[r.Intn(2)] + strconv.Itoa(fl[r.Intn(len(fl))])
+			return failTok(c, fl[r.Intn(len(fl))])
 		case x < 76:
 			if c.cur != nil {
 				return "down"
